@@ -183,6 +183,20 @@ def main():
                     metas.append(meta)
                     descr.append("%s values#%d %s" % (sigstr, req["vj"], cdesc))
     # registration under another name: the contract must describe the method the program dispatches on
+    # one subroutine object registered several times (two names in one router, then again in a second router)
+    ns2 = {"pt": pt, "abi": abi}
+    exec("def shared(a: abi.Uint64, *, output: abi.Uint64):\n    return output.set(a.get())\n", ns2)
+    shared = pt.ABIReturnSubroutine(ns2["shared"])
+    for rname, names in (("first", ("send", "pay_out")), ("second", ("transfer",))):
+        router = pt.Router(rname, pt.BareCallActions())
+        for nm in names:
+            router.add_method_handler(shared, overriding_name=nm, method_config=pt.MethodConfig(no_op=pt.CallConfig.CALL), description="d " + nm)
+        ap, cl, contract = router.compile_program(version=8)
+        listed = sorted(m.get_signature() for m in contract.methods)
+        sels = set(bytes(i["b"]) for i in tealtok.parse_program(ap)[0] if i["op"] == "method")
+        if set(tealtok.selector(x) for x in listed) != sels or listed != sorted("%s(uint64)uint64" % nm for nm in names):
+            chk.report("C09/contract-vs-program/shared-subroutine-%s" % rname,
+                       "a subroutine registered under %r: contract lists %r" % (names, listed), {"names": names, "listed": listed, "approval": ap[:1500]})
     for how in ("overriding_name", "decorator_name"):
         ns = {"pt": pt, "abi": abi}
         exec("def original(a: abi.Uint64, *, output: abi.Uint64):\n    return output.set(a.get())\n", ns)
